@@ -196,7 +196,10 @@ func (f featSpec) build() gts.Feature {
 	return gts.NewFeature(f.Key, f.Loc.build(), props)
 }
 
-var featKeys = []string{"source", "gene", "CDS", "misc_feature", "rep_origin", "mRNA", "promoter", "exon", "sig_peptide", "regulatory", "misc_RNA", "mat_peptide", "variation"}
+// featKeys includes the INSDC keys that are not plain words: an apostrophe, a
+// hyphen, a leading hyphen; and keys that fill the 15 columns a key may take.
+var featKeys = []string{"source", "gene", "CDS", "misc_feature", "rep_origin", "mRNA", "promoter", "exon", "sig_peptide", "regulatory", "misc_RNA", "mat_peptide", "variation",
+	"5'UTR", "3'UTR", "D-loop", "-10_signal", "-35_signal", "misc_difference", "mobile_element", "N_region", "primer_bind", "polyA_site"}
 var quotedNames = []string{"gene", "product", "note", "locus_tag", "db_xref", "organism", "mol_type", "function", "translation", "protein_id", "strain"}
 var literalNames = []string{"codon_start", "transl_table", "number", "citation", "rpt_type", "anticodon"}
 var toggleNames = []string{"pseudo", "partial", "germline", "focus", "environmental_sample"}
@@ -508,9 +511,24 @@ func genRec(r *core.RNG, idx int) recSpec {
 	if r.Chance(3, 4) {
 		s.Accession = fmt.Sprintf("SIM%05d", r.Intn(100000))
 		s.Version = s.Accession + "." + fmt.Sprint(r.Range(1, 9))
+		if r.Chance(1, 8) {
+			// secondary accessions, as many as need a second line
+			for i, n := 0, r.Range(8, 14); i < n; i++ {
+				if i == 6 {
+					s.Accession += "\n"
+				} else {
+					s.Accession += " "
+				}
+				s.Accession += fmt.Sprintf("SIM%05d", r.Intn(100000))
+			}
+		}
 	}
 	for i := r.Pick([]int{3, 2, 2, 1}); i > 0; i-- {
 		s.DBLink = append(s.DBLink, [2]string{[]string{"BioProject", "BioSample", "Assembly", "Sequence Read Archive"}[len(s.DBLink)%4], fmt.Sprintf("PRJ%d", r.Intn(99999))})
+	}
+	if len(s.DBLink) > 0 && r.Chance(1, 8) {
+		// the same database twice
+		s.DBLink = append(s.DBLink, [2]string{s.DBLink[0][0], fmt.Sprintf("PRJ%d", r.Intn(99999))})
 	}
 	for i := r.Pick([]int{3, 2, 2, 1, 1}); i > 0; i-- {
 		s.Keywords = append(s.Keywords, []string{"RefSeq", "complete genome", "simulated", "plasmid", "phage", "whole genome shotgun sequencing project", "Streptomyces sp.", "cf. spp."}[r.Intn(8)])
@@ -523,6 +541,13 @@ func genRec(r *core.RNG, idx int) recSpec {
 	if r.Chance(3, 4) {
 		s.Species = genText(r, 1, 4)
 		s.Organism = genText(r, 1, 4)
+		if r.Chance(1, 10) {
+			// names longer than the 67 columns a line of the field holds
+			s.Organism = "Candidatus " + genText(r, 9, 14)
+			if r.Chance(1, 2) {
+				s.Species = s.Organism + " (" + genText(r, 1, 2) + ")"
+			}
+		}
 		for i := r.Pick([]int{2, 2, 2, 2}); i > 0; i-- {
 			s.Taxon = append(s.Taxon, []string{"Viruses", "Bacteria", "Proteobacteria", "Microviridae", "Bullavirinae", "Sinsheimervirus", "unclassified sequences", "Bacillus sp.", "environmental samples"}[r.Intn(9)])
 		}
